@@ -81,6 +81,16 @@ def classify(case, obs):
                 later = [z for z in b[i + 1:] if z.startswith('error')]
                 if later and later[0] == x:
                     return 'F-C07-active-history-autoflush'
+            # session.get() of an entity whose delete is pending: the versioned run loaded it when an attribute was
+            # assigned (active_history), so get() returns the object; the unversioned run has to refresh it, which
+            # autoflushes the delete first and returns None
+            if {x, y} == {'ok', 'skip'} and i < len(ops) and len(ops[i]) > 2:
+                tgt = (ops[i][1], json.dumps(ops[i][2]))
+                for op in reversed(ops[:i]):
+                    if op[0] in ('commit', 'rollback'):
+                        break
+                    if op[0] == 'del' and (op[1], json.dumps(op[2])) == tgt:
+                        return 'F-C07-active-history-autoflush'
             return None
     return None
 
